@@ -17,7 +17,8 @@ EXTENDS Integers, Sequences, FiniteSets, TLC
 CONSTANTS Mods,        \* module names
           Order,       \* sequence of all module names: order in which the context's module table is visited
           Hooks,       \* Hooks[m] \subseteq {"eval", "start", "stop"}
-          Flags,       \* Flags[m] \subseteq {"REPLACE", "PERSIST", "DENYCTX", "DENYPUB", "DENYSUB"}
+          Flags,       \* Flags[m] = sequence of flag sets (each \subseteq {"REPLACE", "PERSIST", "DENYCTX", "DENYPUB", "DENYSUB"}) that a
+                       \* registration under name m may choose from (ModRegister(m, i) uses Flags[m][i])
           CtxPersist,  \* M_CTX_PERSIST
           Topics,      \* user topics that can be published
           Pats,        \* subscription patterns that can be subscribed (literal topics, a regex, system topics)
@@ -60,8 +61,8 @@ RegSeq(s) == SelectSeq(Order, LAMBDA m : m \in Registered(s))
 
 \* old: object of a released context; subs: set of [pat, pr] (priority "L" | "N" | "H"), one per pattern;
 \* bq/blen: events held back by batching and the configured batch size; stash; hs: handlers installed with become (top first)
-Mod0 == [st |-> "none", reg |-> FALSE, old |-> FALSE, pipe |-> <<>>, subs |-> {}, bq |-> <<>>, blen |-> 0, stash |-> <<>>, hs |-> <<>>]
-NewMod == [Mod0 EXCEPT !.st = "idle", !.reg = TRUE]
+Mod0 == [st |-> "none", reg |-> FALSE, old |-> FALSE, fl |-> {}, pipe |-> <<>>, subs |-> {}, bq |-> <<>>, blen |-> 0, stash |-> <<>>, hs |-> <<>>]
+NewMod(m, i) == [Mod0 EXCEPT !.st = "idle", !.reg = TRUE, !.fl = Flags[m][i]]
 Init0 == [ctx |-> [st |-> "none", quit |-> FALSE, qcode |-> 0, fin |-> FALSE],
           run |-> 0,
           mod |-> [m \in Mods |-> Mod0],
@@ -71,11 +72,11 @@ Init0 == [ctx |-> [st |-> "none", quit |-> FALSE, qcode |-> 0, fin |-> FALSE],
           pay |-> [p \in 1..MaxPay |-> [st |-> "unused", copies |-> 0, auto |-> FALSE]]]
 \* canned set-ups (the driver executes the same public calls before every program and checks it arrived here):
 \*  "loop2" / "loop3": context registered, all modules registered, first dispatch done (loop started, modules RUNNING)
-Running0 == [Mod0 EXCEPT !.st = "running", !.reg = TRUE]
+Running0(m) == [Mod0 EXCEPT !.st = "running", !.reg = TRUE, !.fl = Flags[m][1]]
 InitOf(x) == IF x = "" THEN Init0
              ELSE [Init0 EXCEPT !.ctx = [st |-> "looping", quit |-> FALSE, qcode |-> 0, fin |-> FALSE],
                                 !.run = Cardinality(Mods),
-                                !.mod = [m \in Mods |-> Running0]]
+                                !.mod = [m \in Mods |-> Running0(m)]]
 Init == S = InitOf(Setup)
 
 (* ------------------------------ message copies and payloads ------------------------------ *)
@@ -257,7 +258,7 @@ Step(s) ==
                  IN IF x \notin Registered(r) THEN rest
                     ELSE Push(rest, Fr("dereg", x, FALSE, 0))
       [] f.k = "rereg" ->        \* m_mod_register() continuing after the replaced module was deregistered
-            Ret([r EXCEPT !.mod[m] = NewMod], 0)
+            Ret([r EXCEPT !.mod[m] = NewMod(m, f.a)], 0)
 
 RECURSIVE Run(_)
 Run(s) == IF s.stack = <<>> THEN s
@@ -270,7 +271,7 @@ InCb == S.stack # <<>> /\ Top(S).k = "cb"
 AtTop == S.stack = <<>>
 Can(op) == IF AtTop THEN op \in Ops ELSE (InCb /\ op \in CbOps /\ CbDepth(S.stack) <= MaxNest)
 \* m_ctx(): no context, or the callback being executed belongs to a module denied access to its context
-NoCtx == S.ctx.st = "none" \/ (S.cur # NoMod /\ "DENYCTX" \in Flags[S.cur])
+NoCtx == S.ctx.st = "none" \/ (S.cur # NoMod /\ "DENYCTX" \in S.mod[S.cur].fl)
 Handle(m) == S.mod[m].st # "none"           \* the program holds a reference to (a possibly zombie) module m
 \* M_MOD_ASSERT: zombie, or not the caller's context (none / denied)
 ModRefused(m) == S.mod[m].st = "zombie" \/ NoCtx
@@ -310,21 +311,21 @@ Dispatch(b) == /\ Can("Dispatch") /\ AtTop
 (* ------------------------------ module calls ------------------------------ *)
 \* (modelling bound) a name is not registered again while a call concerning its previous incarnation is still in progress
 NoFrames(m) == \A i \in 1..Len(S.stack) : S.stack[i].m # m
-ModRegister(m) ==
-    /\ Can("ModRegister") /\ NoFrames(m)
+ModRegister(m, i) ==
+    /\ Can("ModRegister") /\ NoFrames(m) /\ i \in 1..Len(Flags[m])
     /\ IF NoCtx THEN Refuse(NEG)
        ELSE IF S.ctx.fin THEN Refuse(NEG)
        ELSE IF m \in Registered(S)
-         THEN IF "REPLACE" \notin Flags[m] THEN Refuse(EEXIST)
-              ELSE IF "PERSIST" \in Flags[m] /\ S.ctx.st = "looping" THEN Refuse(NEG)
+         THEN IF "REPLACE" \notin S.mod[m].fl THEN Refuse(EEXIST)                 \* the *registered* module decides whether it may be replaced
+              ELSE IF "PERSIST" \in S.mod[m].fl /\ S.ctx.st = "looping" THEN Refuse(NEG)
               \* the replaced module is deregistered first (the program drops its old reference afterwards)
-              ELSE Do(Push(Push(S, Fr("rereg", m, 0, 0)), Fr("dereg", m, FALSE, 0)))
-       ELSE Handle(m) = FALSE /\ Do([S EXCEPT !.mod[m] = NewMod, !.ret = 0])
+              ELSE Do(Push(Push(S, Fr("rereg", m, i, 0)), Fr("dereg", m, FALSE, 0)))
+       ELSE Handle(m) = FALSE /\ Do([S EXCEPT !.mod[m] = NewMod(m, i), !.ret = 0])
 
 ModDeregister(m) ==
     /\ Can("ModDeregister") /\ m \in Targets /\ Handle(m)
     /\ IF ModRefused(m) \/ ~S.mod[m].reg THEN Refuse(NEG)            \* (not in the table: its deregistration is already in progress)
-       ELSE IF "PERSIST" \in Flags[m] /\ S.ctx.st = "looping" THEN Refuse(NEG)
+       ELSE IF "PERSIST" \in S.mod[m].fl /\ S.ctx.st = "looping" THEN Refuse(NEG)
        ELSE Do(Push(S, Fr("dereg", m, TRUE, 0)))
 
 \* a state setter is refused on a zombie / foreign module and outside its source states
@@ -343,8 +344,8 @@ DropRef(m) == /\ Can("DropRef") /\ S.mod[m].st = "zombie"
               /\ S' = [S EXCEPT !.mod[m] = Mod0, !.ret = 0]
 
 (* ------------------------------ pub/sub ------------------------------ *)
-PubRefused(m) == ModRefused(m) \/ "DENYPUB" \in Flags[m]
-SubRefused(m) == ModRefused(m) \/ "DENYSUB" \in Flags[m]
+PubRefused(m) == ModRefused(m) \/ "DENYPUB" \in S.mod[m].fl
+SubRefused(m) == ModRefused(m) \/ "DENYSUB" \in S.mod[m].fl
 
 Tell(m, r, p, auto) ==
     /\ Can("Tell") /\ m \in Senders /\ Handle(m) /\ Handle(r) /\ FreePay(S) # {} /\ p = MinFree(S)
@@ -424,7 +425,7 @@ CbReturn(v) ==
 Next == \/ CtxRegister \/ CtxDeregister \/ CtxFinalize
         \/ \E c \in QuitCodes : CtxQuit(c)
         \/ \E b \in AllBatches : Dispatch(b)
-        \/ \E m \in Mods : \/ ModRegister(m) \/ ModDeregister(m) \/ ModStart(m) \/ ModResume(m) \/ ModPause(m) \/ ModStop(m)
+        \/ \E m \in Mods : \/ (\E i \in 1..2 : ModRegister(m, i)) \/ ModDeregister(m) \/ ModStart(m) \/ ModResume(m) \/ ModPause(m) \/ ModStop(m)
                            \/ DropRef(m) \/ PublishSys(m)
                            \/ \E r \in Mods : Pill(m, r)
                            \/ \E p \in 1..MaxPay, auto \in AutoVals :
